@@ -1,14 +1,16 @@
 """C07 - recursive and mutually recursive types work at every depth.
 
 Domain : every cyclic topology on 1 class and (sampled in quick / all in thorough) on 2 classes with
-         out-degree <= 2, edges from {Optional[X], X | None, list[X], dict[str, X], tuple[X, ...]};
+         out-degree <= 2, edges from {Optional[X], X | None, list[X], dict[str, X], tuple[X, ...]} and the same through *named*
+         aliases / NewTypes declared after the classes (type Kids = list[Node]), the alias itself as root included;
          sampled 3-class topologies with mixed class flavours; recursive string-valued aliases; every
          class as root and every container of a cyclic class (list / dict / Optional / tuple[.., ...])
          as root; values of every depth d in 0..D (D = 12 quick, 150 thorough).
 Oracle : routine / codec construction returns within a 30 s watchdog (typical: milliseconds) and raises
          nothing; round trip deep_same (C01); marshal(v) equals the harness-built wire form exactly,
-         hence is json_plain at every level (C06); unmarshal of the harness-built wire form conforms at
-         every level and equals v (C03); codec decode(encode(v)) equals v.
+         hence is json_plain at every level (C06); unmarshal of the harness-built wire form - and of the same
+         structure given as *class instances whose members still hold wire values* - conforms at every level
+         and equals v (C03/C05); codec decode(encode(v)) equals v.
 """
 
 from __future__ import annotations
@@ -112,7 +114,11 @@ def check_program(spec, col, depths, meta):
                 col.violation("every-level-marshalled", case, f"depth {d}: {bad}", bucket="not-plain")
             elif snapshot(m) != snapshot(w):
                 col.violation("every-level-marshalled", case, f"depth {d}: marshal = {m!r:.200}, wire form {w!r:.200}", bucket=diff_bucket(m, w))
-            for src_name, wire in (("own-marshal", m), ("harness-wire", w)):
+            try:
+                raw = U.instance_from_wire(spec, w, mat)
+            except Exception:
+                raw = w
+            for src_name, wire in (("own-marshal", m), ("harness-wire", w), ("instances-holding-wire-values", raw)):
                 ku, u = tl.call(tl.unmarshal, T, wire)
                 if ku == "exc" and soft:
                     col.label(f"above-interpreter-recursion-limit:{d}")
@@ -153,7 +159,7 @@ def run_topology(t, col, depths, flavours=None, future=False, mods=None):
 
 
 def plan(tier, seed):
-    shards = [{"kind": "n1"}, {"kind": "aliases"}]
+    shards = [{"kind": "n1"}, {"kind": "aliases"}, {"kind": "aliasedges", "seed": seed}]
     if tier == "quick":
         for i in range(10):
             shards.append({"kind": "n2", "mod": 10 * 8, "rem": (i * 8 + seed) % 80})
@@ -180,6 +186,25 @@ def _run(shard, col):
         for name, spec in alias_specs():
             for emb in ("self", "list", "dict"):
                 check_program(tp.wrap(emb, spec), col, depths, {"topology": name, "embedding": emb})
+        col.exhaustive_done = True
+    elif shard["kind"] == "aliasedges":
+        # cycles closed through *named* aliases / NewTypes of containers (declared after the classes), the alias
+        # itself as root included
+        kinds = tp.CYCLE_KINDS + tp.ALIAS_KINDS
+        for t in tp.enumerate_topologies(1, kinds=kinds):
+            if not any(k in tp.ALIAS_KINDS for _, k in t[0]):
+                continue
+            for root_emb in tp.EMBEDDINGS + ["edgealias"]:
+                spec = tp.to_spec(t, 0, root_emb)
+                col.label(f"embedding:{root_emb}")
+                check_program(spec, col, depths, {"topology": tp.describe(t), "root_class": 0, "embedding": root_emb})
+        for i, t in enumerate(tp.enumerate_topologies(2, kinds=kinds, max_out=1)):
+            if not any(k in tp.ALIAS_KINDS for es in t for _, k in es) or (i + shard["seed"]) % 3:
+                continue
+            for root in (0, 1):
+                for root_emb in ("self", "list", "edgealias"):
+                    spec = tp.to_spec(t, root, root_emb)
+                    check_program(spec, col, depths, {"topology": tp.describe(t), "root_class": root, "embedding": root_emb})
         col.exhaustive_done = True
     elif shard["kind"] == "n2":
         for i, t in enumerate(tp.enumerate_topologies(2)):
